@@ -325,6 +325,7 @@ def check(run):
     # E380 (a word larger than declared) is decided from the size model of align_struct (shared with C10.R2)
     from props import c10 as _c10
     _c10.r2b_member_padding(run, F)
+    _c10.r1_sizes(run, F)          # the member sizes E380 adds up are the sizes of the LLVM types (shared with C10.R1)
     r1_order(run, F)
     r2_legality(run, F)
     r3_extern(run, F)
